@@ -123,6 +123,50 @@ def build_harness(ctx):
     ctx.notes.append("harness built in %.1fs" % (time.time() - t))
 
 
+def go_fuzz(ctx, fuzz, seconds, parallel=8):
+    """Coverage-guided input generation with Go's native fuzzer (an input source only: everything it finds is
+    executed again by the monitored pipeline).  Returns an ndjson file of rows (crashers first, then corpus)."""
+    src = os.path.join(ctx.dir, "harness-fuzz")
+    shutil.rmtree(src, ignore_errors=True)
+    shutil.copytree(HARNESS, src)
+    modname = "gotsverif_fz%d" % os.getpid()     # a private fuzz-cache directory per run
+    gm = open(os.path.join(src, "go.mod")).read().replace("=> /repo", "=> " + REPO).replace("module gotsverif", "module " + modname)
+    open(os.path.join(src, "go.mod"), "w").write(gm)
+    gosum = os.path.join(REPO, "go.sum")
+    if os.path.exists(gosum):
+        shutil.copy(gosum, os.path.join(src, "go.sum"))
+    rc, cache = sh(["go", "env", "GOCACHE"], cwd=src)
+    corpus = os.path.join(cache.strip(), "fuzz", modname, fuzz)
+    shutil.rmtree(os.path.dirname(corpus), ignore_errors=True)
+    t = time.time()
+    try:
+        rc, out = sh(["go", "test", "-tags", "verif", "-run", "^$", "-fuzz", "^%s$" % fuzz, "-fuzztime", "%ds" % seconds,
+                      "-parallel", str(parallel), "."], cwd=src, timeout=seconds + 900)
+    except Broken as ex:
+        shutil.rmtree(os.path.dirname(corpus), ignore_errors=True)
+        raise
+    execs = 0
+    for m in re.finditer(r"execs: (\d+)", out):
+        execs = max(execs, int(m.group(1)))
+    crash = os.path.join(src, "testdata", "fuzz", fuzz)
+    rows = os.path.join(ctx.dir, "fuzz.rows.ndjson")
+    rows2 = rows + ".corpus"
+    sh([BIN, "fuzzcorpus", rows, "fuzz-crasher", crash], check=True)
+    sh([BIN, "fuzzcorpus", rows2, "fuzz-corpus", corpus], check=True)
+    with open(rows, "a") as f:
+        f.write(open(rows2).read())
+    os.remove(rows2)
+    ncrash = len(os.listdir(crash)) if os.path.isdir(crash) else 0
+    nrows = sum(1 for _ in open(rows))
+    shutil.rmtree(os.path.dirname(corpus), ignore_errors=True)
+    shutil.rmtree(src, ignore_errors=True)
+    if rc != 0 and ncrash == 0:
+        raise Broken("go fuzzing failed without reporting an input:\n" + out[-2500:])
+    ctx.notes.append("go fuzz %s: %ds, %d executions, %d reported input(s), %d corpus rows" % (fuzz, seconds, execs, ncrash, nrows - ncrash))
+    log("  FUZZ %-20s %ds  %d execs, %d reported, %d corpus entries  %.1fs" % (fuzz, seconds, execs, ncrash, nrows - ncrash, time.time() - t))
+    return rows, nrows
+
+
 # ------------------------------------------------------------------ TLC
 
 def tlc(ctx, module, cfg=None, env=None, workers=1, timeout=600, xmx="2g", extra=None, simulate=None):
